@@ -124,6 +124,17 @@ def inSub (s : Nat) (f : Frame) : Bool := f.id == s || f.anc.contains s
 
 def isRunning (f : Frame) : Bool := f.status == .running
 
+def stopFrame (cfg : Cfg) (s : Nat) (f : Frame) : Frame :=
+  if isRunning f && inSub s f then
+    { f with status := .stopped, saved := if cfg.stopClears then [] else f.saved }
+  else f
+
+def overrideFrame (cfg : Cfg) (s : Nat) (o : ObjId) (olds : List (PropId × Val)) (f : Frame) : Frame :=
+  if f.id == s then { f with saved := addSaved cfg.merge f.saved o olds } else f
+
+def startFrame (s : Nat) (f : Frame) : Frame :=
+  if f.id == s then { f with status := .running } else f
+
 /-- `DynamicScenario._stop`: running descendants are stopped first (youngest first), each reverting
     its own overrides, then the scenario itself. -/
 def stopScen (cfg : Cfg) (st : St) (s : Nat) : St :=
@@ -131,18 +142,14 @@ def stopScen (cfg : Cfg) (st : St) (s : Nat) : St :=
     let victims := st.frames.reverse.filter (fun f => isRunning f && inSub s f)
     { st with
       w := victims.foldl (fun w f => revertAll w f.saved) st.w
-      frames := st.frames.map (fun f =>
-        if isRunning f && inSub s f then
-          { f with status := .stopped, saved := if cfg.stopClears then [] else f.saved }
-        else f) }
+      frames := st.frames.map (stopFrame cfg s) }
   else st
 
 def doOverride (cfg : Cfg) (st : St) (s : Nat) (o : ObjId) (ps : List (PropId × Val)) : St :=
   let olds := ps.map (fun pv => (pv.1, st.w.read o pv.1))
   { st with
     w := ps.foldl (fun w pv => w.write o pv.1 pv.2) st.w
-    frames := st.frames.map (fun f =>
-      if f.id == s then { f with saved := addSaved cfg.merge f.saved o olds } else f) }
+    frames := st.frames.map (overrideFrame cfg s o olds) }
 
 def doPrepare (st : St) (s par : Nat) : St :=
   let anc := match st.frames.find? (fun f => f.id == par) with
@@ -151,7 +158,7 @@ def doPrepare (st : St) (s par : Nat) : St :=
   { st with frames := st.frames ++ [{ id := s, anc := anc, status := .prepared, saved := [] }] }
 
 def doStart (st : St) (s : Nat) : St :=
-  { st with frames := st.frames.map (fun f => if f.id == s then { f with status := .running } else f) }
+  { st with frames := st.frames.map (startFrame s) }
 
 def step (cfg : Cfg) (st : St) : Ev → St
   | .create o => { st with objs := st.objs ++ [o], w := st.w.enable o }
@@ -226,10 +233,17 @@ def scopedEvs : List ObjId → List Ev → Bool
 /-- the top-level scenario only executes `override` while it is running -/
 def topDiscipline : Bool → List Ev → Bool
   | _, [] => true
-  | _, .start 0 :: rest => topDiscipline true rest
-  | _, .stop 0 :: rest => topDiscipline false rest
-  | r, .override 0 _ _ :: rest => r && topDiscipline r rest
-  | r, _ :: rest => topDiscipline r rest
+  | r, .start s :: rest => topDiscipline (if s = 0 then true else r) rest
+  | r, .stop s :: rest => topDiscipline (if s = 0 then false else r) rest
+  | r, .override s _ _ :: rest => (s != 0 || r) && topDiscipline r rest
+  | r, .create _ :: rest => topDiscipline r rest
+  | r, .write _ _ _ :: rest => topDiscipline r rest
+  | r, .prepare _ _ :: rest => topDiscipline r rest
+
+def topRunning (st : St) : Bool :=
+  match st.frames with
+  | f :: _ => isRunning f
+  | [] => false
 
 /-- a world in which no object is proxied and every property of every object is 0 -/
 def World.zero : World := { orig := fun _ _ => 0, proxy := fun _ _ => 0, proxied := fun _ => false }
